@@ -1799,8 +1799,9 @@ def search(ctx, deep):
     scale = 6 if deep else 1
     found, n1 = oracle_uni(ctx, rng, 2 * scale, forced=False)
     bad, n2 = oracle_multi(ctx, rng, 1 * scale)
-    ub, n4 = oracle_user_bounds(ctx, rng, 1 * scale)
-    wf, n5, n6 = oracle_wrapper(ctx, rng, 1 * scale, 1 if not deep else 4)
+    # `run` has already exercised these two with the forced histories; repeat them on new seeds only in a deep search
+    ub, n4 = oracle_user_bounds(ctx, rng, 1 * scale) if deep else ({}, 0)
+    wf, n5, n6 = oracle_wrapper(ctx, rng, 1 * scale, 4) if deep else ({}, 0, 0)
     cfg = [(rng.choice(['center', 'direct', 'regular']), rng.choice([4, 5, 6, 7] if deep else [4, 5, 6]), rng.randint(40, 80), 3,
             rng.randrange(1 << 20)) for _ in range(3 * scale)]
     f, n3 = check_uninit(ctx, cfg)
